@@ -257,6 +257,15 @@ def f3(run, tu):
             why = ('%s turns a long double cdata into a Python float (53 significant bits) before the "both sides are long double" test is made; '
                    'facts here: %s' % (cx.render(rr)[:50], sorted(f for f in facts if 'cdsrc' in f)))
         run.ob('F3/cdata-source-reaches-the-long-double-test-unnarrowed', 'do_cast', 'io = %s' % cx.render(rr)[:60], okc, tu.where(x_), why)
+    # a byte is a value in 0..255: the cast of a bytes object of length 1 reads it as unsigned char
+    cb = tu.func('check_bytes_for_float_compatible')
+    reads = [(l_, r_, x_) for l_, r_, o_, x_ in cx.assignments(cb) if cx.lhs_text(l_).replace(' ', '') == '*out_value' and 'ob_sval' in cx.render(r_, keep_casts=True) or
+             (cx.lhs_text(l_).replace(' ', '') == '*out_value' and 'PyBytes' in cx.render(r_, keep_casts=True))]
+    run.need(len(reads) == 1, 'check_bytes_for_float_compatible: the read of the single byte not found')
+    casts = [c_ for c_ in cx.walk(reads[0][1]) if c_.get('kind') in ('CStyleCastExpr', 'ImplicitCastExpr') and (c_.get('type') or '').strip() == 'unsigned char']
+    explicit = [c_ for c_ in cx.walk(reads[0][1]) if c_.get('kind') == 'CStyleCastExpr' and (c_.get('type') or '').strip() == 'unsigned char']
+    run.ob('F4/byte-source-read-as-unsigned-char', 'check_bytes_for_float_compatible', '*out_value = %s' % cx.render(reads[0][1], keep_casts=True)[:70], bool(explicit), tu.where(reads[0][2]),
+           'the byte is read through plain char (signed on this platform): bytes 0x80..0xff become negative numbers')
     F = '_cffi_to_c_long_double'
     g = cfg_of(tu, F)
     rets = [r for r in g.nodes if r.kind == 'return']
